@@ -644,6 +644,53 @@ class DimDomain:
         if base == "sign":
             self.elementwise_same(args[0], node)
             return D()
+        if base in ("hypot", "maximum", "minimum", "fmax", "fmin", "add", "subtract"):
+            a, b = self.scalarize(args[0], node), self.scalarize(args[1], node)
+            self.nexpr += 1
+            if not self.same_dim(a, b):
+                lit = is_num_const(args[0]) or is_num_const(args[1])
+                self.report("abs-tol" if lit and base in ("maximum", "minimum", "fmax", "fmin") else ("abs-offset" if lit else "add-mismatch"),
+                            node, f"{base}({a}, {b})")
+            if a.la or b.la:
+                if base not in ("add", "subtract"):
+                    self.report("log-misuse", node, f"{base} of log-affine value")
+            return self.note(b if a.poly else a)
+        if base in ("multiply", "divide", "true_divide"):
+            return self.binop(ast.Mult() if base == "multiply" else ast.Div(), args[0], args[1], node)
+        if base in ("square", "cbrt", "reciprocal", "power", "float_power"):
+            e = {"square": Const(2), "cbrt": Const(1 / 3), "reciprocal": Const(-1)}.get(base) or args[1]
+            return self.binop(ast.Pow(), args[0], e, node)
+        if base == "clip":
+            a = self.scalarize(args[0], node)
+            for lim in list(args[1:3]) + [kwargs.get("a_min"), kwargs.get("a_max")]:
+                if lim is None or (isinstance(lim, Const) and lim.value is None):
+                    continue
+                d = self.scalarize(lim, node)
+                self.nexpr += 1
+                if not self.same_dim(a, d):
+                    self.report("abs-tol" if is_num_const(lim) else "cmp-mismatch", node, f"clip bound {d} on quantity of {a}")
+            return a
+        if base in ("floor", "ceil", "rint", "trunc", "fix"):
+            a = self.scalarize(args[0], node)
+            self.nexpr += 1
+            if not a.poly and not a.dimless():
+                self.report("transcendental-arg", node, f"{base}() of quantity with {a}")
+            return a
+        if base in ("degrees", "radians"):
+            self.require_dimless(args[0], node, base)
+            return self.note(D())
+        if base in ("argmax", "argmin", "argsort", "nonzero", "count_nonzero", "searchsorted", "argwhere", "flatnonzero"):
+            return D(isint=True)
+        if base in ("allclose",):
+            return self.call_external(q.rsplit(".", 1)[0] + ".isclose", args, kwargs, node)
+        if base in ("take", "broadcast_to", "full_like", "compress", "roll", "flip", "moveaxis", "diff", "trapz", "average", "nansum",
+                    "nanmax", "nanmin", "nanmean", "cumprod", "ascontiguousarray", "array_split", "pad", "append", "insert", "take_along_axis"):
+            if base in ("full_like",):
+                return self.elementwise_same(args[1], node)
+            if base in ("append", "insert") and len(args) >= 2:
+                a, b = self.elementwise_same(args[0], node), self.elementwise_same(args[-1], node)
+                return self.join(a, b, node)
+            return self.elementwise_same(args[0], node)
         if base == "arctan2":
             a, b = self.scalarize(args[0], node), self.scalarize(args[1], node)
             self.nexpr += 1
